@@ -1,6 +1,7 @@
 """C15: outbound byte stream = FIFO concatenation of the encodings of the queued messages."""
 from pyvc.spec import REG as R, Raise
 from . import node, c13  # noqa
+from .node import CLOSED
 
 R.model("Message", fields={"g_enc": "bytes"})
 R.model("PeerConnection", fields={"g_removed": "bytes"})
@@ -56,26 +57,34 @@ R.contract("Socket.getsockopt", trusted=True, params={"self": "Socket", "a": "An
 R.interfere("PeerConnection", "_write_buffer", "write_lock", "append")
 R.macro("wconn", ["n", "s"], "n.socket_peers[s.fd]")
 _slice = R.contract("Node._handle_connections@for:wsock", params={"self": "Node", "wsock": "Socket"},
-           requires=[("registered", "wsock.fd in self.socket_peers"),
-                     ("generators-in-range", "seq_ok(wconn(self, wsock).hop_by_hop_seq) and seq_ok(self.end_to_end_seq) and "
+           requires=[("generators-in-range", "seq_ok(wconn(self, wsock).hop_by_hop_seq) and seq_ok(self.end_to_end_seq) and "
                                              "wconn(self, wsock).hop_by_hop_seq != self.end_to_end_seq"),
                      ("identity-encodable", "encodable(self.origin_host) and encodable(self.realm_name)")],
-           ensures=[("transport-receives-exactly-what-leaves-the-buffer",
-                     "wsock.g_sent[0:old(len(wsock.g_sent))] == old(wsock.g_sent) and "
+           ensures=[("a-socket-without-connection-is-ignored",
+                     "implies(not old(wsock.fd in self.socket_peers), wsock.g_sent == old(wsock.g_sent) and "
+                     "unchanged(self.socket_peers) and unchanged(self.connections))"),
+                    ("a-connection-closed-here-without-releasing-its-socket-has-signalled-the-node",
+                     "implies(old(wsock.fd in self.socket_peers) and old(wconn(self, wsock)).state == %d and "
+                     "old(wconn(self, wsock).state) != %d and "
+                     "old(wconn(self, wsock)).g_close_calls == old(wconn(self, wsock).g_close_calls), "
+                     "old(wconn(self, wsock)).g_attn > old(wconn(self, wsock).g_attn))" % (CLOSED, CLOSED)),
+                    ("transport-receives-exactly-what-leaves-the-buffer",
+                     "implies(old(wsock.fd in self.socket_peers), wsock.g_sent[0:old(len(wsock.g_sent))] == old(wsock.g_sent) and "
                      "old(wconn(self, wsock)).g_removed[0:old(len(wconn(self, wsock).g_removed))] == old(wconn(self, wsock).g_removed) and "
                      "wsock.g_sent[old(len(wsock.g_sent)):] == "
-                     "old(wconn(self, wsock)).g_removed[old(len(wconn(self, wsock).g_removed)):]"),
+                     "old(wconn(self, wsock)).g_removed[old(len(wconn(self, wsock).g_removed)):])"),
                     ("nothing-is-lost-or-reordered",
-                     "is_prefix(old(T_out(wconn(self, wsock))), T_out(old(wconn(self, wsock))))")],
+                     "implies(old(wsock.fd in self.socket_peers), "
+                     "is_prefix(old(T_out(wconn(self, wsock))), T_out(old(wconn(self, wsock)))))")],
            raises=[],
            ghost_modifies=["wsock.g_sent", "wconn(self, wsock).g_removed", "*MsgQueue.g_put",
-                           "wconn(self, wsock).g_close_calls", "wconn(self, wsock).g_close_reason"],
+                           "wconn(self, wsock).g_close_calls", "wconn(self, wsock).g_close_reason", "wconn(self, wsock).g_attn"],
            modifies=["wconn(self, wsock)._write_buffer", "*PeerConnection.state", "*StoppableThread.stopped", "*Socket.closed",
                      "*Peer.connection", "*Peer.last_connect", "*Peer.last_disconnect", "*Peer.disconnect_reason",
                      "dict:self.connections", "dict:self.peer_sockets", "dict:self.socket_peers",
                      "dict:self._half_ready_connections", "dict:self._peer_waiting_answer", "*Event.flag", "*list:Peer",
                      "*SequenceGenerator._sequence"],
-           props=["C15"],
+           props=["C15", "C14"],
            note="one iteration of `for wsock in ready_w` (send branch), under interference of the writer thread: the write "
                 "buffer may grow at its end whenever it is read outside write_lock and when the lock is acquired")
 _slice.interference = [("PeerConnection", "_write_buffer")]
